@@ -58,6 +58,8 @@ def run(ctx: Ctx) -> None:
     pixel_map(ctx, py, rs)
     column_arith(ctx, py, rs)
     windows_and_write_effect(ctx, py, rs)
+    busy_flag(ctx, py, rs)
+    image_renderer(ctx, py)
     ctx.extra["exhaustive"] = True
 
 
@@ -250,6 +252,7 @@ def pixel_map(ctx: Ctx, py: PyProgram, rs: RustProgram) -> None:
                       f"the display stitcher drives {len(buffer)} of {32 * 240} pixels: display column(s) {missing[:8]} are not determined by any VRAM bit" + (f"; writes outside the panel at {extra[:4]}" if extra else ""), CW_PY)
     seen: dict = {}
     n = 0
+    ctx._pixel_map = dict(buffer)
     for (row, col), v in buffer.items():
         n += 1
         ctx.need(isinstance(v, tuple) and v[0] == "px", "pixel not produced by pixel_on(vram byte, bit)")
@@ -398,7 +401,14 @@ def column_arith(ctx: Ctx, py: PyProgram, rs: RustProgram) -> None:
     wd = py.func(HD_PY, "HD61202.write_data")
     stores = [s for s in ast.walk(wd) if isinstance(s, ast.Assign) and isinstance(s.targets[0], ast.Subscript) and (attr_chain(s.targets[0].value.value) if isinstance(s.targets[0].value, ast.Subscript) else None) == "self.vram"]
     n += 1
-    if not (len(stores) == 1 and unparse(stores[0].targets[0]) == "self.vram[self.state.page][self.state.y_address]" and unparse(stores[0].value) == "data"):
+    def _idx_ok(st: ast.Assign) -> bool:
+        # self.vram[P][Y] with P derived from state.page and Y from state.y_address (directly or through a local / a fold modulo the size)
+        t = st.targets[0]
+        wd_defs = py_defs(wd)
+        pl = py_leaves(t.value.slice, wd_defs) | {unparse(t.value.slice)}
+        yl = py_leaves(t.slice, wd_defs) | {unparse(t.slice)}
+        return any("state.page" in x for x in pl) and any("state.y_address" in x for x in yl)
+    if not (len(stores) == 1 and _idx_ok(stores[0]) and unparse(stores[0].value) == "data"):
         ctx.violation("C15.3/write-store", key_of(HD_PY, "HD61202.write_data", "vram store"), f"write_data VRAM stores: {[unparse(s) for s in stores]}; expected exactly one store of the byte at [page][y]", f"{HD_PY}:{wd.lineno}")
     wny = [s.value for s in ast.walk(wd) if isinstance(s, ast.Assign) and attr_chain(s.targets[0]) == "self.state.y_address"]
     rswd = rs.fn(LCD_RS, "Hd61202Chip::write_data")
@@ -484,3 +494,209 @@ def windows_and_write_effect(ctx: Ctx, py: PyProgram, rs: RustProgram) -> None:
                               f"a CPU write to {addr:#06x} {'changes' if rs_eff else 'does not change'} the Rust model and {'changes' if py_eff else 'does not change'} the Python model "
                               f"(Python parse_command {'accepts' if py_eff else 'rejects'} it, Rust parse_command ignores the R/W line)", f"{HD_PY} vs {rel}")
     ctx.instance("C15.1/windows-write-effect", "LCD window bounds Python == Rust; write effect per (window, low nibble) Python == Rust", n, 33)
+
+
+def busy_flag(ctx: Ctx, py: PyProgram, rs: RustProgram) -> None:
+    """HD61202 status: every instruction and data write raises BUSY unconditionally, a status read reports it in bit 7 and clears it -
+    in both models."""
+    n = 0
+    for q in ("HD61202.write_instruction", "HD61202.write_data"):
+        fn = py.func(HD_PY, q)
+        n += 1
+        top = [st for st in fn.body if isinstance(st, ast.Assign) and any(attr_chain(t) == "self.state.busy" for t in st.targets) and isinstance(st.value, ast.Constant) and st.value.value is True]
+        if not top:
+            ctx.violation("C15.3/busy", key_of(HD_PY, q, "BUSY not raised"), f"{q} does not set state.busy = True on every path: a status read right after the write reports 'ready' where the HD61202 (and the Rust model) report BUSY (bit 7)", f"{HD_PY}:{fn.lineno}")
+    for q in ("Hd61202Chip::write_instruction", "Hd61202Chip::write_data"):
+        fn = rs.fn(LCD_RS, q)
+        n += 1
+        top = [st for st in fn.body["stmts"] if st.get("k") == "expr_stmt" and st["e"].get("k") == "assign" and expr_text(st["e"]["l"]) == "self.state.busy" and expr_text(st["e"]["r"]) == "true"]
+        if not top:
+            ctx.violation("C15.3/busy", key_of(rs.file_for(LCD_RS), q, "BUSY not raised"), f"{q} does not set state.busy = true on every path", fn.where)
+    rdst = py.func(HD_PY, "HD61202.read_instruction_status")
+    n += 1
+    txt = unparse(rdst)
+    if not ("self.state.busy" in txt and any(isinstance(st, ast.Assign) and any(attr_chain(t) == "self.state.busy" for t in st.targets) and isinstance(st.value, ast.Constant) and st.value.value is False for st in ast.walk(rdst)) and ("128" in txt or "0x80" in txt)):
+        ctx.violation("C15.3/busy", key_of(HD_PY, "HD61202.read_instruction_status", "busy bit"), "read_status does not report BUSY in bit 7 and clear it", f"{HD_PY}:{rdst.lineno}")
+    ctx.instance("C15.3/busy", "BUSY raised by every write and reported/cleared by the status read, both models", n, 5)
+
+
+# ---------------------------------------------------------------------------
+class _Img:
+    """Abstract PIL image: a rectangle of symbolic pixels (each is None = background or the VRAM bit that drives it). Only the
+    operations the repository's renderers use are defined; anything else raises and fails the analysis closed."""
+
+    _sa_host = True
+
+    def __init__(self, w: int, h: int, px: dict | None = None):
+        self.width, self.height, self.px = int(w), int(h), dict(px or {})
+
+    @property
+    def size(self) -> tuple:
+        return (self.width, self.height)
+
+    def convert(self, _mode: Any) -> "_Img":
+        return _Img(self.width, self.height, self.px)
+
+    def copy(self) -> "_Img":
+        return _Img(self.width, self.height, self.px)
+
+    def load(self) -> "_Img":
+        return self
+
+    def __setitem__(self, xy: Any, v: Any) -> None:
+        self.px[(int(xy[0]), int(xy[1]))] = v
+
+    def crop(self, box: Any) -> "_Img":
+        x0, y0, x1, y1 = (int(v) for v in box)
+        return _Img(x1 - x0, y1 - y0, {(x - x0, y - y0): v for (x, y), v in self.px.items() if x0 <= x < x1 and y0 <= y < y1})
+
+    def transpose(self, how: Any) -> "_Img":
+        if how == "FLIP_LEFT_RIGHT":
+            return _Img(self.width, self.height, {(self.width - 1 - x, y): v for (x, y), v in self.px.items()})
+        if how == "FLIP_TOP_BOTTOM":
+            return _Img(self.width, self.height, {(x, self.height - 1 - y): v for (x, y), v in self.px.items()})
+        raise NotConst(f"Image.transpose({how})")
+
+    def paste(self, other: Any, at: Any = (0, 0)) -> None:
+        if not isinstance(other, _Img):
+            raise NotConst("paste of a non-image")
+        ox, oy = int(at[0]), int(at[1])
+        for y in range(other.height):
+            for x in range(other.width):
+                if 0 <= x + ox < self.width and 0 <= y + oy < self.height:
+                    self.px[(x + ox, y + oy)] = other.px.get((x, y))
+
+    def resize(self, *_a: Any, **_k: Any) -> "_Img":
+        raise NotConst("resize on the zoom=1 path")
+
+
+class _Byte:
+    def __init__(self, cell: tuple):
+        self.cell = cell
+
+    def __rshift__(self, n: Any) -> "_Bit":
+        return _Bit(self.cell, int(n), False)
+
+
+class _Bit:
+    """(byte >> n) [& 1]; its truth value is the pixel's only dependence on VRAM, recorded by the pixel store that it guards."""
+    last: "_Bit | None" = None
+
+    def __init__(self, cell: tuple, bit: int, masked: bool):
+        self.cell, self.bit, self.masked = cell, bit, masked
+
+    def __and__(self, m: Any) -> "_Bit":
+        if int(m) != 1:
+            raise NotConst("bit test with a mask other than 1")
+        return _Bit(self.cell, self.bit, True)
+
+    def __bool__(self) -> bool:
+        if not self.masked:
+            raise NotConst("pixel test on an unmasked shift")
+        _Bit.last = self
+        return False
+
+
+class _ByteVram:
+    def __init__(self, chip: int):
+        self.chip = chip
+
+    def __getitem__(self, page: Any) -> Any:
+        chip = self.chip
+
+        class Row:
+            def __getitem__(self, col: Any) -> _Byte:
+                return _Byte(("vram", chip, int(page), int(col)))
+        return Row()
+
+
+class _PixImg(_Img):
+    def __setitem__(self, xy: Any, v: Any) -> None:
+        b = _Bit.last
+        if b is None:
+            raise NotConst("pixel store not guarded by a VRAM bit test")
+        self.px[(int(xy[0]), int(xy[1]))] = ("px", b.cell, b.bit)
+        _Bit.last = None
+
+
+def image_renderer(ctx: Ctx, py: PyProgram) -> None:
+    """The PIL renderer of the panel (render_vram_image + render_combined_image, what get_combined_display shows) is interpreted over
+    an abstract image algebra (new / load / pixel store / convert / crop / transpose / paste) and must place every VRAM bit at the
+    pixel the display-buffer stitcher places it: one panel, one pixel map."""
+    mod = py.module(HD_PY)
+    consts = {}
+    for st in ast.walk(mod.tree):
+        if isinstance(st, ast.ClassDef) and st.name == "HD61202":
+            for a in st.body:
+                if isinstance(a, ast.Assign) and isinstance(a.targets[0], ast.Name):
+                    try:
+                        cev = PyEval(py, mod)
+                        cev.env = dict(consts)
+                        v = cev.eval(a.value)
+                        if isinstance(v, int):
+                            consts[a.targets[0].id] = v
+                    except NotConst:
+                        pass
+    ctx.need({"LCD_WIDTH_PIXELS", "LCD_HEIGHT_PIXELS", "LCD_PAGES", "PAGE_HEIGHT_PIXELS"} <= set(consts), "HD61202 geometry constants not found")
+
+    class _ImageMod:
+        _sa_host = True
+        FLIP_LEFT_RIGHT = "FLIP_LEFT_RIGHT"
+        FLIP_TOP_BOTTOM = "FLIP_TOP_BOTTOM"
+        NEAREST = "NEAREST"
+
+        @staticmethod
+        def new(mode: Any, size: Any, *_a: Any) -> _Img:
+            return (_PixImg if mode == "1" else _Img)(size[0], size[1])
+
+    rv = py.func(HD_PY, "HD61202.render_vram_image")
+    chip_imgs = []
+    for chip in (0, 1):
+        ev = PyEval(py, mod, budget=[3_000_000])
+        ev.env = {"self": Term("HD61202", (), dict(consts, vram=_ByteVram(chip))), "zoom": 1, "Image": _ImageMod}
+        try:
+            ev.exec_block([st for st in rv.body if not isinstance(st, ast.Return)])
+            ret = [st for st in rv.body if isinstance(st, ast.Return)][-1]
+            img = ev.eval(ret.value)
+        except NotConst as e:
+            raise AnalysisError(f"render_vram_image is outside the image algebra: {e}")
+        ctx.need(isinstance(img, _Img), "render_vram_image does not return an image")
+        chip_imgs.append(img)
+        want = {(c, p * consts["PAGE_HEIGHT_PIXELS"] + b) for p in range(consts["LCD_PAGES"]) for c in range(consts["LCD_WIDTH_PIXELS"]) for b in range(consts["PAGE_HEIGHT_PIXELS"])}
+        bad = [(xy, v) for xy, v in img.px.items() if v != ("px", ("vram", chip, xy[1] // 8, xy[0]), xy[1] % 8)]
+        if set(img.px) != want or bad:
+            ctx.violation("C15.2/image-renderer", key_of(HD_PY, "HD61202.render_vram_image", "chip image"), f"the per-chip image is not the 64x64 map x=column, y=page*8+bit: {len(set(img.px) ^ want)} pixels missing/extra, first wrong {bad[:2]}", f"{HD_PY}:{rv.lineno}")
+    rc = py.func(HD_PY, "render_combined_image")
+    ev = PyEval(py, mod, budget=[3_000_000])
+
+    class _Lcd:
+        _sa_host = True
+
+        def __init__(self, img: _Img):
+            self.img = img
+
+        def render_vram_image(self, zoom: int = 1) -> _Img:
+            return self.img.copy()
+    ev.env = {"lcds": [_Lcd(chip_imgs[0]), _Lcd(chip_imgs[1])], "zoom": 1, "Image": _ImageMod, "HD61202": Term("HD61202", (), dict(consts))}
+    try:
+        ev.exec_block([st for st in rc.body if not isinstance(st, ast.Return)])
+        ret = [st for st in rc.body if isinstance(st, ast.Return)][-1]
+        panel = ev.eval(ret.value)
+    except NotConst as e:
+        raise AnalysisError(f"render_combined_image is outside the image algebra: {e}")
+    ctx.need(isinstance(panel, _Img), "render_combined_image does not return an image")
+    ref = getattr(ctx, "_pixel_map", None)
+    ctx.need(bool(ref), "reference pixel map (get_display_buffer) missing")
+    n = 0
+    bad = []
+    if panel.size != (240, 32):
+        ctx.violation("C15.2/image-renderer", key_of(HD_PY, "render_combined_image", "panel size"), f"combined image is {panel.size}, the panel is (240, 32)", f"{HD_PY}:{rc.lineno}")
+    for (row, col), v in ref.items():
+        n += 1
+        if panel.px.get((col, row)) != v:
+            bad.append(((row, col), v, panel.px.get((col, row))))
+    if bad:
+        (row, col), v, got = bad[0]
+        ctx.violation("C15.2/image-renderer", key_of(HD_PY, "render_combined_image", "pixel map differs from get_display_buffer"),
+                      f"{len(bad)} of {n} panel pixels are driven by a different VRAM bit in the PIL renderer than in get_display_buffer; e.g. pixel (row {row}, col {col}) is {v[1:]} in the buffer but {got[1:] if got else None} in the image", f"{HD_PY}:{rc.lineno}")
+    ctx.instance("C15.2/image-renderer", "panel pixels of render_combined_image (abstract image algebra) == get_display_buffer map", n, 7680, discharged=n - len(bad))
